@@ -328,6 +328,10 @@ def wf_errors(img):
         errs.append("maxslots %d but the region holds %d slots" % (img.max, n))
     owner = [None] * n
     nkeys = 0
+    ncolls = {}
+    for t in sl:
+        if t.count == -1:
+            ncolls[t.hash] = ncolls.get(t.hash, 0) + 1
     for i, s in enumerate(sl):
         if len(s.u) != EXTSIZE:
             errs.append("slot %d: union has %d bytes" % (i, len(s.u)))
@@ -339,7 +343,7 @@ def wf_errors(img):
         if s.count >= 1:
             if s.hash != i:
                 errs.append("slot %d: leading key slot away from its home %d" % (i, s.hash))
-            ncoll = sum(1 for t in sl if t.count == -1 and t.hash == i)
+            ncoll = ncolls.get(i, 0)
             if s.count != 1 + ncoll:
                 errs.append("slot %d: count %d but %d collision slots name it" % (i, s.count, ncoll))
         else:
@@ -380,6 +384,22 @@ def wf_errors(img):
     return errs
 
 
+HUGESLOTS = 20000       # as in harness/hasharr.c
+
+
+def name_block_error(line):
+    """the harness found the name block handed out by getnext shorter than namesize + 1 bytes (or not terminated)"""
+    j = line.find("!short-name-block:")
+    if j >= 0:
+        have, want = line[j + 18:].split()[0].split("=")[0].split(":")[0].split("/")
+        return "getnext reports a key name of %s bytes but the block it hands out holds only %s bytes" % (want, have)
+    if "!name-not-terminated" in line:
+        return "the name handed out by getnext is not NUL-terminated"
+    if "!watchdog" in line:
+        return "the operation did not return (watchdog of the harness: endless loop)"
+    return None
+
+
 def judge_c07(ops, lines):
     """(index, description) of the first line on which the image is not well-formed, a guard is
     damaged, or the relocated copy observes something else than the original"""
@@ -399,9 +419,12 @@ def judge_c07(ops, lines):
             if d:
                 return i, d
             continue
+        d = name_block_error(line)
+        if d:
+            return i, "after `%s`: %s" % (op[:60], d)
         p = parse_line(line)
         if not p.ok:
-            return i, "unparsable result line: " + line[:200]
+            return i, "`%s`: result line cut short (the harness died inside the call) or unparsable: %s" % (op[:60], line[:120])
         if op.split()[0] in ("inv", "next", "get", "sget", "getstr", "size", "walk") and have and (p.delta or p.hdr != (img.max, img.used, img.num)):
             return i, "`%s` changed the image (header %s -> %s, %d slots rewritten)" % (
                 op[:40], (img.max, img.used, img.num), p.hdr, len(p.delta))
@@ -413,7 +436,8 @@ def judge_c07(ops, lines):
             what = [n for n, b in zip(("guard zone or byte copy damaged / observation wrote into the copy",
                                        "struct padding written", "tail of the region written"), p.g) if b != "1"]
             return i, "after `%s`: %s" % (op[:60], "; ".join(what))
-        e = wf_errors(img)
+        # tables of 10^5 slots: the whole-image check runs where the harness made its full observation
+        e = wf_errors(img) if (len(img.slots) <= HUGESLOTS or p.obs_o != "#-") else []
         if e:
             return i, "image not well-formed after `%s`: %s" % (op[:60], "; ".join(e[:4]))
         if p.obs_o != p.obs_c:
@@ -461,9 +485,12 @@ def judge_c06(ops, lines):
             ideal, keys = IdealMap(cap), []
         elif ideal is None:
             continue
+        d = name_block_error(line)
+        if d:
+            return i, "after `%s`: %s" % (op[:60], d)
         p = parse_line(line)
         if not p.ok:
-            return i, "unparsable result line: " + line[:200]
+            return i, "`%s`: result line cut short (the harness died inside the call) or unparsable: %s" % (op[:60], line[:120])
         before = img.keymap() if img.slots and kind in ("rmi", "walkrm", "next") else None
         if kind == "inv" and (p.delta or p.hdr != (img.max, img.used, img.num)):
             return i, "the invalid calls changed the image (header %s -> %s, %d slots rewritten)" % (
@@ -591,8 +618,10 @@ def judge_c06(ops, lines):
                 want = "EINVAL" if len(kk) == 0 else ("=" + hexs(m[ck][1]) if ck in m else "ENOENT")
                 if len(kk) <= 65535 and g != want:
                     return i, "after `%s`: get(%s) answers `%s`, the ideal map `%s`" % (op[:60], hexs(kk)[:40], g[:80], want[:80])
-        else:
-            # large table: contents are read off the decoded image instead
+        elif ideal.cap <= HUGESLOTS or p.obs_o != "#-":
+            # large table: contents are read off the decoded image instead (tables of 10^5 slots: where the
+            # harness made its full observation - after init / walk / size and every 256th operation; every
+            # operation's own result and the counters are judged always)
             now = img.keymap()
             if set(now) != set(m) or any(now[ck][1] != m[ck][1] for ck in m):
                 return i, "after `%s`: stored keys/values differ from the ideal map" % op[:60]
@@ -975,4 +1004,106 @@ def glue_streams(rng, tier):
         ops += ["init %d" % ms, op_put(b"a", b"1"), op_sput(b"b", b"2" * 33), op_putstr(b"c", b"3"), op_put(b"d", b"4"),
                 "size", "next -1", op_inv(b"a")]
     sts.append(Stream("init-sweep", ops, history=True))
+    return sts
+
+
+# ------------------------------------------------------------------ field widths: failing inputs for narrowed slot fields
+
+def one_home_universe(cap, count, rng):
+    """`count` keys of mixed lengths (1..4 random bytes, 5..24 text incl. the 16/17 boundary) that all share one home slot"""
+    home_, keys = rng.randrange(cap), []
+    for ln, share in ((3, 0.55), (4, 0.15), (8, 0.1), (15, 0.05), (16, 0.05), (17, 0.05), (24, 0.05)):
+        keys += find_keys(cap, home_, ln, max(1, int(count * share + 0.5)), rng, taken=keys)
+    keys = keys[:count]
+    while len(keys) < count:
+        keys += find_keys(cap, home_, 3, count - len(keys), rng, taken=keys)
+    rng.shuffle(keys)
+    return keys
+
+
+def width_streams(rng, tier):
+    sts = []
+    # (count) 127, 128, 129 and 200 keys sharing ONE home slot of a 300-slot table: slot.count of the home
+    # passes 127 / 128 / 129; all keys are read back at each of the three sizes, then removed first-in-first-out
+    # (every removal promotes a collision key); 200 keys: read back, removed last-in-first-out (no promotion);
+    # counters and contents after every step
+    cap = 300
+    uni = one_home_universe(cap, 200, rng)
+
+    def val(j):
+        return mkval(rng, 33 if j % 40 == 7 else 1)
+    ops = [op_init(cap)] + [op_put(k, val(j)) for j, k in enumerate(uni[:127])]
+    for n in (127, 128, 129):
+        if n > 127:
+            ops.append(op_put(uni[n - 1], val(n - 1)))
+        ops += ["size"] + [op_get(k) for k in uni[:n]]
+    ops += [op_put(uni[0], b"replaced"), op_get(uni[0]), op_put(uni[128], b"replaced too"), op_get(uni[128]), "walk"]
+    ops += [op_rm(k) for k in uni[:129]] + ["size", "walk", op_get(uni[0]), op_get(uni[128])]
+    sts.append(Stream("one-home:127-128-129", ops, history=True))
+    ops = [op_init(cap)] + [op_put(k, val(j)) for j, k in enumerate(uni)]
+    ops += ["size", "walk"] + [op_get(k) for k in uni[:130:2] + uni[190:]]
+    ops += [op_rm(k) for k in uni[:119:-1]] + ["size", "walk", op_get(uni[0]), op_get(uni[199]), "clear", "size", op_get(uni[0])]
+    sts.append(Stream("one-home:200", ops, history=True))
+    # (getnext name) object keys of every length 1..20 with a zero byte at every position (and all zero):
+    # the name handed out by getnext is compared byte for byte over the reported namesize
+    ops = []
+    for L in range(1, 21):
+        ops.append(op_init(5))
+        ks = [bytes((0 if i == p_ else 0x41 + i) for i in range(L)) for p_ in range(L)] + [bytes(L)]
+        if L >= 3:
+            ks.append(bytes([0x61, 0] + [0x62] * (L - 3) + [0]))
+        for k in ks:
+            ops += [op_put(k, mkval(rng, 1 if L % 2 else 40)), "walk", "next 0", op_get(k), op_rm(k)]
+        ops += [op_put(k, b"v") for k in ks[:3]] + ["walk", "walkrm 1 0", "size"]
+    sts.append(Stream("zero-byte-keys", ops, history=True))
+    if tier != "quick":
+        sts += huge_streams(rng)
+    return sts
+
+
+def huge_streams(rng):
+    """(hash / link) tables of 70000 and 140000 slots, a few thousand keys chosen by their home slot: below
+    2^15, between 2^15 and 2^16, beyond 2^16, homes shared by two or three keys in each range; values of 100
+    bytes (extension chains next to the home). Implementation against the oracle (the list-based model is not
+    run on 10^5 slots): every result, the counters after every operation, every key read back, full walks,
+    the relocated copy at the harness' full observations."""
+    sts = []
+    for cap in (70000, 140000):
+        pool = {}
+        for t in range(120000):
+            k = b"h%d-%d" % (cap, t) + b"x" * (t % 23)
+            pool.setdefault(home(k, cap), []).append(k)
+        regions = [(0, 32768, 200), (32768, 65536, 1200), (65536, cap, 1600)]
+        keys = []
+        for lo, hi, want in regions:
+            homes = [h for h in pool if lo <= h < hi]
+            rng.shuffle(homes)
+            shared = [h for h in homes if len(pool[h]) >= 2][:60]
+            got = []
+            for h in shared:
+                got += pool[h][:3]
+            for h in homes:
+                if len(got) >= want:
+                    break
+                if h not in shared:
+                    got.append(pool[h][0])
+            keys += got[:max(want, len(got))]
+        rng.shuffle(keys)
+        val = {k: mkval(rng, rng.choice([100, 100, 100, 1, 33, 170])) for k in keys}
+        ops = [op_init(cap)]
+        for j, k in enumerate(keys):
+            ops.append(op_put(k, val[k]))
+            if j < 200:
+                ops.append(op_get(k))           # read back at once (the full observations come every 256th operation)
+        ops += ["size", "walk"] + [op_get(k) for k in keys]
+        for k in keys[:250]:
+            ops += [op_put(k, mkval(rng, rng.choice([1, 99, 200]))), op_get(k)]
+        gone = keys[100:100 + len(keys) // 2]
+        for k in gone:
+            ops.append(op_rm(k))
+        ops += ["size", "walk"] + [op_get(k) for k in keys]
+        ops += ["next %d" % i for i in (0, 32767, 32768, 65535, 65536, cap - 1, cap)]
+        ops += ["clear", "size", op_put(keys[0], b"after clear"), op_get(keys[0]), "walk"]
+        sts.append(Stream("huge:cap%d" % cap, ops, history=True, nomodel=True,
+                          note="%d keys, homes up to %d" % (len(keys), max(home(k, cap) for k in keys))))
     return sts
